@@ -12,7 +12,8 @@
 (* (DL: a literal, so that the accumulator starts as a known constant),     *)
 (* Sacc `a = a + atom`, Gacc `o <-- in1 * a`, Qacc `o <== in1 * a`,        *)
 (* Racc `return a`; DA `var arr[2]`, SAv `arr[a] = atom`, Gidx / Qidx /     *)
-(* Ridx: the same uses with `arr[0] - arr[1]` in place of `a`.             *)
+(* Ridx: the same uses with `arr[0] - arr[1]` in place of `a`; DAv `var     *)
+(* brr[a];`, Gin `o <-- in1`, Rn `return n`.                                *)
 (***************************************************************************)
 EXTENDS Integers, Sequences, FiniteSets, TLC, Json
 
@@ -26,6 +27,16 @@ Build(chain, bottom) == IF chain = <<>> THEN bottom
                        [] h = "wh" -> <<"wh">> \o inner \o <<"}">>
                        [] h = "ifeT" -> <<"ife">> \o inner \o <<"}", "}">>
                        [] h = "ifeE" -> <<"ife", "}">> \o inner \o <<"}">>
+\* the same constant assigned at every level of the chain (before the nested arm), the variable declared without initialiser:
+\* several paths agree on the constant, the path around the chain leaves the default 0
+RECURSIVE BuildK(_)
+BuildK(chain) == IF chain = <<>> THEN <<>>
+                 ELSE LET h == Head(chain)
+                          inner == <<"SK">> \o BuildK(Tail(chain)) IN
+                      CASE h = "if" -> <<"if">> \o inner \o <<"}">>
+                        [] h = "wh" -> <<"wh">> \o inner \o <<"}">>
+                        [] h = "ifeT" -> <<"ife">> \o inner \o <<"}", "}">>
+                        [] h = "ifeE" -> <<"ife", "}">> \o inner \o <<"}">>
 Chains == UNION {[1..d -> Arms] : d \in 1..Depth}
 Uses == IF Template THEN {"Gacc", "Qacc"} ELSE {"Racc"}
 IdxUses == IF Template THEN {"Gidx", "Qidx"} ELSE {"Ridx"}
@@ -34,9 +45,14 @@ VARIABLE c
 \* empty chain), the array used afterwards: the cursor reaches a sink only through the subscript of an assignment target
 Init == \/ c \in {"acc"} \X Chains \X Uses \X {0, 1} \X {"D", "DL"}   \* a second update after the chain (0 / 1); initialiser: expression / literal
         \/ c \in {"cursor"} \X (Chains \cup {<<>>}) \X IdxUses \X {0} \X {"DL"}
+        \/ c \in {"const"} \X Chains \X Uses \X {0} \X {"D0"}
+        \* family "dim": the first local only sizes a local array that is never used; the output does not depend on it
+        \/ c \in {"dim"} \X {<<>>} \X (IF Template THEN {"Gin"} ELSE {"Rn"}) \X {0, 1} \X {"D", "DL"}
 Next == UNCHANGED c
 Spec == Init /\ [][Next]_c
-Toks == IF c[1] = "acc" THEN <<c[5]>> \o Build(c[2], <<"Sacc">>) \o (IF c[4] = 1 THEN <<"Sacc">> ELSE <<>>) \o <<c[3], "}">>
+Toks == IF c[1] = "dim" THEN <<c[5]>> \o (IF c[4] = 1 THEN <<"Sacc">> ELSE <<>>) \o <<"DAv", c[3], "}">>
+        ELSE IF c[1] = "const" THEN <<"D0">> \o BuildK(c[2]) \o <<c[3], "}">>
+        ELSE IF c[1] = "acc" THEN <<c[5]>> \o Build(c[2], <<"Sacc">>) \o (IF c[4] = 1 THEN <<"Sacc">> ELSE <<>>) \o <<c[3], "}">>
         ELSE <<"DL", "DA">> \o Build(c[2], <<"SAv", "Sacc">>) \o <<c[3], "}">>
 Emit == PrintT(<<"CASE", ToJson([toks |-> Toks])>>)
 =============================================================================
